@@ -109,6 +109,13 @@ def recursion_limit_saved_in_module_global_during_construction():
     edit('sourcer/grammar.py', "    # Generate and compile the souce code.\n    builder = translator.generate_source_code(docstring, parsed)\n    module = builder.compile(\n        module_name=name,\n        docstring=docstring,\n        source_var='_source_code' if include_source else None,\n    )\n",
          "    # Generate and compile the souce code.\n    global _saved_limit\n    _saved_limit = sys.getrecursionlimit()\n    sys.setrecursionlimit(max(_saved_limit, 5000))\n    try:\n        builder = translator.generate_source_code(docstring, parsed)\n        module = builder.compile(\n            module_name=name,\n            docstring=docstring,\n            source_var='_source_code' if include_source else None,\n        )\n    finally:\n        sys.setrecursionlimit(_saved_limit)\n")
 
+@mutant
+def literal_wrapper_published_before_complete_within_one_line():
+    # one wrapper per call site, published and completed in ONE source line: the window between
+    # `setdefault` returning and the attribute store exists only inside the line
+    edit(T, "def _wrap_string_literal(string_value, parse_function):\n    result = _StringLiteral(string_value)\n    result._parse_function = parse_function\n    return result",
+         "_literals = {}\n\n\ndef _wrap_string_literal(string_value, parse_function):\n    result = _literals.get(parse_function)\n    if result is None:\n        _literals.setdefault(parse_function, _StringLiteral(string_value))._parse_function = parse_function\n        result = _literals[parse_function]\n    return result")
+
 if __name__ == '__main__':
     fresh()
     only = sys.argv[2:] 
